@@ -4,11 +4,25 @@ import json, os
 HERE = os.path.dirname(os.path.abspath(__file__)); VERIF = os.path.dirname(HERE)
 NOTE = ('trusted: clang++-14 front end + fixed IR pipeline, tools/ir2c.py (IR->C, must-fire), prelude headers, CBMC 6.11; GCC code generation and '
         'strict-aliasing UB not modelled; the set of instantiations (shapes, patterns, configurations) is enumerated, element values are universally quantified')
-ENABLED = ['C01', 'C07', 'C11', 'C13', 'C14', 'C15']
+ENABLED = ['C01', 'C02', 'C03', 'C07', 'C08', 'C09', 'C11', 'C13', 'C14', 'C15', 'C17', 'C18', 'C19']
 DFCC = 'CBMC code contracts (goto-instrument --dfcc --enforce-contract) on clang-IR-extracted Fastor entry points'
 CHECKS = {
  'C01': dict(text='For every enumerated (M,K,N), element type (int32, float, double), API form (matmul on maps / owning tensors, lazy %, matrix-vector, vector-matrix), ISA, standard and block-size macro: the contract "every result element equals sum_k A(i,k)*B(k,j), nothing else written, no access outside the operands" is enforced on the translated real code (goto-instrument --dfcc) and discharged by CBMC in ATOMS mode: the kernel provably evaluates the Einstein polynomial with each product exactly once; exact for integer-valued data. The floating-point rounding bound of the property is NOT machine-checked.',
              technique=DFCC + ', provenance-concrete (ATOMS) evaluation', ref='5 (C01), 4, 9'),
+ 'C02': dict(text='Generated expression trees (depth <= 2 quick / 3 thorough) over + - * / unary minus abs sqrt comparisons logic scalar operands and libm functions, five assignment forms, sizes 1..2V+1 for every vector width, owning tensors and maps: every element of the result equals the same scalar operations on the operand elements, bit for bit. float/double in UF mode (uninterpreted arithmetic: congruence), int32/int64 in SYM (real two\'s-complement; trees without data*data products) and ATOMS (pure element-wise products); division by a scalar accepts the documented reciprocal form. Tree sizes on the widest ISAs are budget-limited (stated in the module).',
+             technique=DFCC + ', uninterpreted float arithmetic (UF) / symbolic integers / ATOMS', ref='5 (C02), 9'),
+ 'C03': dict(text='All ways of identifying indices between and within two index lists (ranks 1-3 quick, 1-4 thorough), extents from {1,2,3,V,V+1} distinct on free indices, einsum / contraction / explicit output order / inner / outer / single-tensor forms, int float double: result type (static_assert on the declared shape) and every element == the Einstein sum, ATOMS mode (exact polynomial identity; rounding bound not machine-checked), frame and memory safety.',
+             technique=DFCC + ', provenance-concrete (ATOMS) evaluation', ref='5 (C03), 4, 9'),
+ 'C08': dict(text='One loop-free unit per (element type, SIMD ABI available under the ISA, operation): load/store/mask forms/broadcast/set/reverse/shift/cast (SYM, all lane values and all masks), integer + - neg abs min max compare logic horizontal sum/min/max (SYM), integer lane products and dot (ATOMS), float + - * / sqrt fmadd family (UF on pipeline P0: lane congruence, bit exact), float min/max/compare/horizontal min/max (SYM, NaN excluded by requires), float horizontal sum/dot (ATOMS: each lane exactly once). rcp/rsqrt error bounds, product(), integer division and complex vectors are not covered.',
+             technique=DFCC + ' per SIMD operation; SYM / UF / ATOMS', ref='5 (C08), 9'),
+ 'C09': dict(text='Each statement is compiled twice in one entry -- with lazy operators (%, trans, inv, cof, adj, solve, det, trace, norm, nested) and with the eager functions and explicit temporaries -- from the same inputs; the two destinations must be equal bit for bit (UF: both run the same kernels, so congruence decides), for 16 kinds of surrounding arithmetic, five assignment operators, destination aliasing as an element-wise operand. Product chains A%B%C(%E) vs the mathematical product by TAGS+BASIS (proof for all values). D op= A%B through the GEMM path only on bounded integer data.',
+             technique=DFCC + ', uninterpreted float arithmetic (UF); TAGS+BASIS for product chains', ref='5 (C09), 9'),
+ 'C17': dict(text='tmatmul for all nine tag pairs, operands zero outside the tagged triangle, shapes in [1..6]^3 (to 13 thorough) incl. trapezoidal, double float int, API forms and block-size macros: every element of the MxN result (structural zeros included) equals sum_k A(i,k)*B(k,j), ATOMS mode; frame and memory safety; masked variant under AVX2/AVX-512.',
+             technique=DFCC + ', provenance-concrete (ATOMS) evaluation', ref='5 (C17), 4, 9'),
+ 'C18': dict(text='One tensor as in/out buffer; pairs of equal-extent ranges (shifted, reversed, interleaved, partial/perfect overlap) for rank 1-3, dynamic / compile-time / index-tensor / mask views, all operators (int: = += -= in SYM; float: all five in UF), the same view object used twice, coinciding source and destination without noalias(): A_after[dst_k] == old(A)[dst_k] op old(A)[src_k] and every other element unchanged, for all element values (and all index vectors / masks where symbolic).',
+             technique=DFCC + ', symbolic data and symbolic index vectors', ref='5 (C18), 9'),
+ 'C19': dict(text='Index tensors as symbolic in-range buffers (duplicate-free by requires for writes), parents <= 16 elements, int/int64/size_t indices: reads return the indexed elements in index order (repeats allowed), per-axis and mixed forms; writes update exactly the indexed positions; boolean masks as symbolic buffers (all 2^n masks at once): exactly the true positions are updated with the element at the same position, all others unchanged.',
+             technique=DFCC + ', symbolic data, symbolic gather/scatter addresses', ref='5 (C19), 9'),
  'C07': dict(text='Memory-safety, frame, alignment and no-allocation obligations (pointer/bounds checks on exact-extent objects, assigns clause, alignment assertion on every over-aligned vector access, operator-new stub) for operations through TensorMap over a misaligned buffer flush against the end of its object, for runtime-checked indexing with symbolic out-of-range indices (normal exit implies index in range), and safety-only contracts for inverse/det/lu/qr/solve; for all element and index values. The same obligations are part of every unit of every other property.',
              technique=DFCC + '; pointer/assigns/alignment obligations, symbolic indices', ref='5 (C07), 9'),
  'C11': dict(text='Exact clauses only: L unit lower triangular (zeros above the diagonal, ones on it, bit-exact), U upper triangular, returned permutation (vector and matrix form) is a bijection, frame; for all inputs, per (size, strategy, type, ISA), float arithmetic uninterpreted. The backward-error bound ||LU-PA|| and reconstruct() are NOT decided.',
